@@ -6,4 +6,5 @@ import "oxverif/harness/core"
 var Targets = map[string]core.Target{
 	"C11": C11{},
 	"C09": C09{},
+	"C10": C10{},
 }
